@@ -472,3 +472,41 @@ def _barrier(k):
 
 BARRIERS = [_barrier(0), _barrier(1), _barrier(2)]
 CONTRACTS += BARRIERS
+
+
+# ---------------------------------------------------------------------------------------------- Circuit.mode_swaps (C01 / C08)
+def _swap_dict(k):
+    def build(ex, name):
+        import z3
+        from vf.pyvc.values import CDict
+        return ex.alloc(CDict(tuple((z3.Int(f"{name}_k{i}"), z3.Int(f"{name}_v{i}")) for i in range(k))), name)
+    build.label = f"dict of {k} swap(s)"
+    return build
+
+
+def _mode_swaps(k):
+    keys = [f"swaps_k{i}" for i in range(k)]
+    vals = [f"swaps_v{i}" for i in range(k)]
+    distinct = [f"{a} != {b}" for i, a in enumerate(keys) for b in keys[i + 1:]]
+    complete = {0: "True", 1: f"{keys[0]} == {vals[0]}" if k == 1 else "",
+                2: f"(({keys[0]} == {vals[0]} and {keys[1]} == {vals[1]}) or ({keys[0]} == {vals[1]} and {keys[1]} == {vals[0]}))" if k == 2 else ""}[k]
+    out_of_range = " or ".join([f"self._map_mode({x}) >= self.__n_modes" for x in keys + vals] or ["False"])
+    c = Contract(
+        target=f"{CIRC}:Circuit.mode_swaps",
+        types={"self": CIRCUIT, "swaps": _swap_dict(k), **{x: "int" for x in keys + vals}},
+        # with ancillas present the argument needs that _map_mode is injective, which its modular contract does not state (a two-call property):
+        # the non-empty dictionaries are therefore verified for circuits without ancillas (all mode values and the mode count symbolic)
+        requires=[WF_INTERNAL, WF_RANGE] + [f"{x} >= 0" for x in keys + vals] + distinct + (["len(self.__internal_modes) == 0"] if k else []),
+        modifies=["self.__circuit_spec"],
+        ensures={"swaps_recorded": "len(suffix(self.__circuit_spec)) == 1 and isinstance(suffix(self.__circuit_spec)[0], ModeSwaps)"},
+        # out-of-range modes are refused first; a dictionary whose keys and values are not the same set of modes is incomplete
+        raises={"ModeRangeError": out_of_range, "ValueError": f"not ({out_of_range}) and not {complete}"},
+        exc_frame=True,
+        props=["C01", "C08"],
+    )
+    c.label = f"{k} swap(s)"
+    return c
+
+
+SWAPS = [_mode_swaps(0), _mode_swaps(1), _mode_swaps(2)]
+CONTRACTS += SWAPS
